@@ -29,8 +29,8 @@ SPEC = {
              'asset values and histories, routing histories of collected parts, after id normalisation; a case is '
              'one model; non-trivial = the outcome differs under another seed (tie-breaks matter), so that equality '
              'is not vacuous; also: a plain-library model with a user machine type, work orders still in progress at the end of the run and long histories'),
-    'floors': {'quick': {'same_seed_pairs_equal': 60, 'models_where_other_seed_differs': 20,
-                         'split_runs_equal': 60, 'parallel_results_compared': 60},
+    'floors': {'quick': {'same_seed_pairs_equal': 45, 'models_where_other_seed_differs': 20,
+                         'split_runs_equal': 30, 'parallel_results_compared': 60},
                'thorough': {'same_seed_pairs_equal': 1500, 'models_where_other_seed_differs': 500,
                             'split_runs_equal': 1500, 'parallel_results_compared': 600}},
     'assumptions': ['only the listed max_processes values are sampled',
